@@ -4,6 +4,7 @@ package checks
 
 import (
 	"context"
+	"crypto/ecdsa"
 	"encoding/base64"
 	"encoding/hex"
 	"fmt"
@@ -12,11 +13,14 @@ import (
 	"sort"
 	"strings"
 
+	"github.com/ethereum/go-ethereum/crypto"
+	"github.com/ethereum/go-ethereum/p2p/discv5"
 	"github.com/vipnode/vipnode/v2/ethnode"
 	"github.com/vipnode/vipnode/v2/internal/verif/vh"
 	"github.com/vipnode/vipnode/v2/internal/verif/vsched"
 	"github.com/vipnode/vipnode/v2/jsonrpc2"
 	"github.com/vipnode/vipnode/v2/pool"
+	"github.com/vipnode/vipnode/v2/pool/store"
 )
 
 // C04 — every signed endpoint acts only on requests signed by the identity they name.
@@ -381,6 +385,9 @@ func c04ValidShapes() vh.Unit {
 			shapes = append(shapes, shape{"pool_addNode", W1, node, "node=" + vh.Short(node)})
 		}
 		shapes = append(shapes, shape{"pool_withdraw", W1, nil, ""})
+		// the payment endpoints named by a node-style identity (a node key acting for itself): the
+		// signature scheme follows the identity's form, on these endpoints like on the others
+		shapes = append(shapes, shape{"pool_addNode", C1, C1.NodeID, "identity=node id, node=self"}, shape{"pool_addNode", H1, C1.NodeID, "identity=node id"}, shape{"pool_withdraw", C1, nil, "identity=node id"})
 		for _, prefix := range c04States {
 			for _, sh := range shapes {
 				if u.Expired() {
@@ -394,6 +401,10 @@ func c04ValidShapes() vh.Unit {
 				ctx := vh.CtxWith(pw.Host("conn-" + sh.owner.Name).Service())
 				nonce := vsched.Base().UnixNano() + int64(3600e9) + 9000
 				call := vh.NewCall(sh.endpoint, sh.owner, nonce, sh.param)
+				if strings.HasPrefix(sh.label, "identity=node id") {
+					call.ID = sh.owner.NodeID
+					call = call.Resign(sh.owner)
+				}
 				var err error
 				p := vh.Recover(func() { _, err = call.Invoke(pw, ctx) })
 				u.R.Evaluations++
@@ -606,6 +617,83 @@ func c04RPCSurface() vh.Unit {
 	}}
 }
 
+// the client side of the signed endpoints as the binaries use it: pool.Remote signs with the node
+// key and names the identity it derives from that key. Every key's requests must be accepted - also
+// keys whose public coordinates begin with zero bytes (one in 128 each) - on every endpoint.
+func c04RemotePoolIdentities() vh.Unit {
+	return vh.Unit{Name: "remote-pool-identities", Run: func(u *vh.U) {
+		var keys []*ecdsa.PrivateKey
+		special := 0
+		for d := int64(1); d < 4000 && (special < 6 || len(keys) < 12); d++ {
+			b := make([]byte, 32)
+			big.NewInt(d).FillBytes(b)
+			k, err := crypto.ToECDSA(b)
+			if err != nil {
+				continue
+			}
+			x, y := k.PublicKey.X.Bytes(), k.PublicKey.Y.Bytes()
+			if len(x) < 32 || len(y) < 32 {
+				if special < 6 {
+					keys = append(keys, k)
+					special++
+				}
+			} else if len(keys)-special < 6 {
+				keys = append(keys, k)
+			}
+		}
+		if special < 3 {
+			u.R.Infra = "no keys with short coordinates found"
+			return
+		}
+		for _, k := range keys {
+			vsched.ResetClock(0)
+			vsched.SetVirtualClock(false)
+			pw := vh.NewPoolWorld(vh.PoolConfig{Driver: vh.Memory})
+			local := &jsonrpc2.Local{}
+			if err := vh.RegisterProd(&local.Server, pw); err != nil {
+				panic(err)
+			}
+			rp := pool.Remote(local, k)
+			id := discv5.PubkeyID(&k.PublicKey).String()
+			short := len(k.PublicKey.X.Bytes()) < 32 || len(k.PublicKey.Y.Bytes()) < 32
+			type step struct {
+				name string
+				run  func() error
+			}
+			steps := []step{
+				{"vipnode_connect", func() error {
+					_, err := rp.Connect(context.Background(), pool.ConnectRequest{NodeInfo: ethnode.UserAgent{Kind: ethnode.Geth}})
+					return err
+				}},
+				{"vipnode_update", func() error {
+					_, err := rp.Update(context.Background(), pool.UpdateRequest{PeerInfo: []ethnode.PeerInfo{}})
+					return err
+				}},
+				{"vipnode_peer", func() error { _, err := rp.Peer(context.Background(), pool.PeerRequest{Num: 1}); return err }},
+			}
+			for _, st := range steps {
+				var err error
+				p := vh.Recover(func() { err = st.run() })
+				u.R.Evaluations++
+				u.R.States++
+				u.R.Transitions++
+				u.R.Traces++
+				refused := vh.IsRefused(err) || (err != nil && strings.Contains(err.Error(), "verify"))
+				u.Observe(fmt.Sprintf("remote-pool %s short-coordinate=%v refused=%v", st.name, short, refused))
+				if p != "" || refused {
+					u.Violate("c04/"+st.name+"/valid-request-refused", fmt.Sprintf("pool.Remote with node key d=%s (identity %s..., public coordinate with leading zero byte: %v): %s refused: %v %s", k.D, id[:8], short, st.name, err, p), nil)
+					return
+				}
+			}
+			if n, err := pw.Raw.GetNode(store.NodeID(id)); err != nil || string(n.ID) != id {
+				u.Violate("c04/vipnode_connect/identity-not-the-key's", fmt.Sprintf("node key d=%s: the node registered by pool.Remote is not stored under the key's node id %s...: %v", k.D, id[:8], err), nil)
+				return
+			}
+		}
+		u.Sample(fmt.Sprintf("pool.Remote with %d node keys (%d of them with a public coordinate that starts with a zero byte) x connect / update / peer", len(keys), special))
+	}}
+}
+
 func init() {
 	vh.Register(&vh.Check{
 		ID: "C04", Level: "model_checking",
@@ -621,7 +709,7 @@ func init() {
 			for _, e := range vh.SignedEndpoints {
 				us = append(us, c04Unit(e))
 			}
-			us = append(us, c04Legacy(), c04ValidShapes(), c04WalletEncodings(), c04RPCSurface(), c04UnitShape("vipnode_update", "peers-only"))
+			us = append(us, c04Legacy(), c04ValidShapes(), c04WalletEncodings(), c04RPCSurface(), c04UnitShape("vipnode_update", "peers-only"), c04RemotePoolIdentities())
 			b := 2
 			if tier == "thorough" {
 				b = 3
